@@ -886,8 +886,8 @@ func runOnce(c *Ctx, exec *ssa.Function, fnField, onceField, memoField string) {
 		}
 		// the helper's Result parameter whose spill is what gets stored
 		if al, ok := mstore.Val.(*ssa.Alloc); ok {
-			if sv := core.SingleStore(al); sv != nil && (sv == v || (p.Bind(sv) != sv && (p.Bind(sv) == v || sameLocalLoad(p.Bind(sv), v)))) {
-				return true
+			if sv := core.SingleStore(al); sv != nil && (sv == v || sameLocalLoad(sv, v) || (p.Bind(sv) != sv && (p.Bind(sv) == v || sameLocalLoad(p.Bind(sv), v)))) {
+				return true // (`cached := result; memo = &cached; return result`: an unmodified copy of the returned Result)
 			}
 		}
 		return false
